@@ -150,6 +150,16 @@ impl Entities {
         tc_computation: TCComputation,
         extensions: &Extensions<'_>,
     ) -> Result<Self> {
+        #[cfg(feature = "verif-trace")]
+        let collection: Vec<Arc<Entity>> = collection.into_iter().collect();
+        #[cfg(feature = "verif-trace")]
+        let mut verif_op = crate::verif_trace::StoreOp::new(
+            "add",
+            tc_computation,
+            schema.is_some(),
+            crate::verif_trace::project_batch(collection.iter().map(AsRef::as_ref)),
+            crate::verif_trace::project_entities(&self.entities),
+        );
         let checker = schema.map(|schema| EntitySchemaConformanceChecker::new(schema, extensions));
         let mut entities_touched: HashSet<EntityUID> = HashSet::new();
         for entity in collection.into_iter() {
@@ -176,6 +186,8 @@ impl Entities {
                 repair_tc(&entities_touched, &mut self.entities, true)?
             }
         };
+        #[cfg(feature = "verif-trace")]
+        verif_op.ok(crate::verif_trace::project_entities(&self.entities));
         Ok(self)
     }
 
@@ -189,6 +201,16 @@ impl Entities {
         collection: impl IntoIterator<Item = EntityUID>,
         tc_computation: TCComputation,
     ) -> Result<Self> {
+        #[cfg(feature = "verif-trace")]
+        let collection: Vec<EntityUID> = collection.into_iter().collect();
+        #[cfg(feature = "verif-trace")]
+        let mut verif_op = crate::verif_trace::StoreOp::new(
+            "remove",
+            tc_computation,
+            false,
+            serde_json::json!(collection.iter().map(ToString::to_string).collect::<Vec<_>>()),
+            crate::verif_trace::project_entities(&self.entities),
+        );
         let mut entities_touched: HashSet<EntityUID> = HashSet::new();
         for uid_to_remove in collection.into_iter() {
             match self.entities.remove(&uid_to_remove) {
@@ -214,6 +236,8 @@ impl Entities {
             TCComputation::EnforceAlreadyComputed => enforce_tc_and_dag(&self.entities)?,
             TCComputation::ComputeNow => repair_tc(&entities_touched, &mut self.entities, true)?,
         }
+        #[cfg(feature = "verif-trace")]
+        verif_op.ok(crate::verif_trace::project_entities(&self.entities));
         Ok(self)
     }
 
@@ -236,6 +260,16 @@ impl Entities {
         tc_computation: TCComputation,
         extensions: &Extensions<'_>,
     ) -> Result<Self> {
+        #[cfg(feature = "verif-trace")]
+        let collection: Vec<Arc<Entity>> = collection.into_iter().collect();
+        #[cfg(feature = "verif-trace")]
+        let mut verif_op = crate::verif_trace::StoreOp::new(
+            "upsert",
+            tc_computation,
+            schema.is_some(),
+            crate::verif_trace::project_batch(collection.iter().map(AsRef::as_ref)),
+            crate::verif_trace::project_entities(&self.entities),
+        );
         let checker = schema.map(|schema| EntitySchemaConformanceChecker::new(schema, extensions));
         let mut entities_touched: HashSet<EntityUID> = HashSet::new();
         for entity in collection.into_iter() {
@@ -276,6 +310,8 @@ impl Entities {
                 repair_tc(&entities_touched, &mut self.entities, true)?
             }
         };
+        #[cfg(feature = "verif-trace")]
+        verif_op.ok(crate::verif_trace::project_entities(&self.entities));
         Ok(self)
     }
 
@@ -303,6 +339,16 @@ impl Entities {
         tc_computation: TCComputation,
         extensions: &Extensions<'_>,
     ) -> Result<Self> {
+        #[cfg(feature = "verif-trace")]
+        let entities: Vec<Entity> = entities.into_iter().collect();
+        #[cfg(feature = "verif-trace")]
+        let mut verif_op = crate::verif_trace::StoreOp::new(
+            "from",
+            tc_computation,
+            schema.is_some(),
+            crate::verif_trace::project_batch(entities.iter()),
+            serde_json::json!([]),
+        );
         let mut entity_map = create_entity_map(entities.into_iter().map(Arc::new))?;
         if let Some(schema) = schema {
             // Validate non-action entities against schema.
@@ -345,6 +391,8 @@ impl Entities {
                     .map(|e: Arc<Entity>| (e.uid().clone(), e)),
             );
         }
+        #[cfg(feature = "verif-trace")]
+        verif_op.ok(crate::verif_trace::project_entities(&entity_map));
         Ok(Self {
             entities: entity_map,
             mode: Mode::default(),
